@@ -1,5 +1,6 @@
 import Jose.Jwk
 import Jose.Fmt
+import Jose.Cli
 import Jose.Driver.Util
 import Jose.Driver.B64
 import Jose.Driver.Entity
@@ -64,12 +65,35 @@ def fmtCli (a : Json) (argv : List String) : Json :=
     let (so, fs) := Fmt.finalFiles st.out
     cliResult (Fmt.exitStatus oc) so fs
 
-/-- `jose fmt` through the line protocol (the only subcommand that needs no primitive) -/
+def worldOf (a : Json) : Cli.World :=
+  { stdin := (argStr? a "stdin").map unhex |>.getD [],
+    files := match a.get? "files" with
+      | some (.obj kvs) => kvs.filterMap (fun (k, v) => v.strVal?.map (fun h => (k, unhex h)))
+      | _ => [] }
+
+def resJson (r : Cli.Res) : Json :=
+  .obj [("status", .int r.status), ("stdout", .str (hexOfNats r.stdout)),
+        ("files", .obj (r.files.map (fun (f, t) => (f, Json.str (hexOfNats t)))))]
+
+/-- the subcommands of the tool that need no primitive: `jose fmt`, and the control flow of `jws fmt`, `jwe fmt`,
+    `jwk pub`, `jwk eql`, `jwk use`, `b64 enc`, `b64 dec`; `none` = not one of them -/
+def cliPure (a : Json) : Option Json :=
+  let w := worldOf a
+  match argvOf a with
+  | "fmt" :: rest => some (fmtCli a rest)
+  | "jws" :: "fmt" :: rest => some (resJson (Cli.jwsFmt w rest))
+  | "jwe" :: "fmt" :: rest => some (resJson (Cli.jweFmt w rest))
+  | "jwk" :: "pub" :: rest => some (resJson (Cli.jwkPub w rest))
+  | "jwk" :: "eql" :: rest => some (resJson (Cli.jwkEql w rest))
+  | "jwk" :: "use" :: rest => some (resJson (Cli.jwkUse w rest))
+  | "b64" :: "enc" :: rest => some (resJson (Cli.b64Enc w rest))
+  | "b64" :: "dec" :: rest => some (resJson (Cli.b64Dec w rest))
+  | _ => none
+
 def fmtOps : List (String × (Json → Json)) := [
-  ("cli.run", fun a =>
-    match argvOf a with
-    | "fmt" :: rest => fmtCli a rest
-    | _ => err "unmodelled-subcommand")
+  ("cli.run", fun a => (cliPure a).getD (err "unmodelled-subcommand")),
+  -- a failing run of the tool has usually written part of its output before it knew: only the status is compared
+  ("cli.status", fun a => .obj [("status", (((cliPure a).getD (err "unmodelled-subcommand")).get? "status").getD .null)])
 ]
 
 /-- chains of the public constructors (the content-decryption stage is registered in Jose/Driver/Jwe.lean) -/
